@@ -448,6 +448,67 @@ func jobC19(c *rt.Ctx) {
 		c.ClassN("add", len(As))
 		c.ClassN("mul", len(As))
 	}
+	// ---- constructed RESULTS: the reduction's subtraction chain sees the remainder's limbs, whatever the
+	// input looked like. Inputs q*L + r for every structured quotient q and every remainder r of the
+	// scalar alphabet (each limb in {0, 1, max}, powers of two and their neighbours), as 64-byte and
+	// 32-byte strings; products a * b with b = r / a mod L for every (a, r) of the alphabet
+	c.Require("constructed-remainder/expand64", "constructed-remainder/expand32", "constructed-remainder/mul")
+	crRems := append(append([]*big.Int{}, As...), preResults()...)
+	c.Extra("constructed_remainders", int64(len(crRems)))
+	for qi, q := range ks {
+		if !c.Take() {
+			continue
+		}
+		c.Distinct(fmt.Sprintf("cr64 %d", qi), true)
+		for _, r := range crRems {
+			x := new(big.Int).Mul(q, L)
+			x.Add(x, r)
+			if x.BitLen() > 512 {
+				continue
+			}
+			checkExpand("constructed-remainder/expand64", ref.ToLE(x, 64), true)
+		}
+	}
+	for q := int64(0); q <= 16; q++ {
+		if !c.Take() {
+			continue
+		}
+		c.Distinct(fmt.Sprintf("cr32 %d", q), true)
+		for _, r := range crRems {
+			x := new(big.Int).Mul(big.NewInt(q), L)
+			x.Add(x, r)
+			if x.BitLen() > 256 {
+				continue
+			}
+			checkExpand("constructed-remainder/expand32", ref.ToLE(x, 32), true)
+		}
+	}
+	for i := range As {
+		if As[i].Sign() == 0 {
+			continue
+		}
+		if !c.Take() {
+			continue
+		}
+		c.Distinct(fmt.Sprintf("crmul %d", i), true)
+		inv := new(big.Int).ModInverse(As[i], L)
+		for j := range crRems {
+			bv := new(big.Int).Mul(crRems[j], inv)
+			bv.Mod(bv, L)
+			b := fromInt(bv)
+			var m Bignum256
+			Mul(&m, &lim[i], &b)
+			c.Step(1)
+			if valueOf(&m).Cmp(crRems[j]) != 0 || !canonical(&m) {
+				c.Violation("C19 Mul constructed-remainder", fmt.Sprintf("Mul(%s, %s) = %s (limbs %s), expected %s", As[i], bv, valueOf(&m), limbsStr(&m), crRems[j]), map[string]interface{}{"a": As[i].String(), "b": bv.String(), "limbs": limbsStr(&m), "expected": crRems[j].String()})
+			}
+			Mul(&m, &b, &lim[i])
+			if valueOf(&m).Cmp(crRems[j]) != 0 || !canonical(&m) {
+				c.Violation("C19 Mul constructed-remainder", fmt.Sprintf("Mul(%s, %s) = %s (limbs %s), expected %s", bv, As[i], valueOf(&m), limbsStr(&m), crRems[j]), map[string]interface{}{"a": bv.String(), "b": As[i].String(), "limbs": limbsStr(&m), "expected": crRems[j].String()})
+			}
+		}
+		c.ClassN("constructed-remainder/mul", len(crRems))
+	}
 	// ---- outputs are fully overwritten (VerifyBatch reuses its scalar slots from chunk to chunk) -----
 	c.Require("dirty-output")
 	for i := range As {
